@@ -903,4 +903,6 @@ TRUSTED_BASE = ['modelled (not verified) code: pybtex/richtext.py (all classes a
                 'str.upper/lower/isalpha are modelled on ASCII only, \\s as the 29 Python whitespace code points; '
                 'the regexes whitespace_re and delimiter_re are modelled by hand-written splitters (compared with the live objects through String.split on every run)']
 ASSUMPTIONS = ['characters whose case mapping changes length, and non-ASCII letters, are outside the compared domain (generators use ASCII, whitespace code points and a few non-letter symbols)']
-PARTIAL = []
+PARTIAL = ['all rendering theorems are proved up to `erase` (HRef.external forgotten, tag name emph = em): the exact statements are refuted by the F10 witnesses (ctor_flat_refuted, case_flat_refuted)',
+           'not proved, left to the correspondence run and the oracle: split, contains / startswith / endswith / isalpha, add_period, abbreviate, == (uniqueness of the normal form), int index / add_period / abbreviate / split inside ops_compose; immutability of operands is checked by the oracle only',
+           'index_out_of_range_raises_refuted: multipart texts do not raise IndexError outside the bounds (F23)']
